@@ -35,7 +35,8 @@ func (u *Unsubscribe) NewUnSubBack() *Unsuback {
 func NewUnsubscribePacket(fh *FixHeader, version Version, r io.Reader) (*Unsubscribe, error) {
 	p := &Unsubscribe{FixHeader: fh, Version: version}
 	//判断 标志位 flags 是否合法[MQTT-3.10.1-1]
-	if fh.Flags != FlagUnsubscribe {
+	// (MQTT 3.1 had a DUP flag on UNSUBSCRIBE)
+	if fh.Flags != FlagUnsubscribe && !(version == Version31 && fh.Flags == FlagUnsubscribe|0x08) {
 		return nil, codes.ErrMalformed
 	}
 	err := p.Unpack(r)
